@@ -72,7 +72,7 @@ pub fn all() -> Vec<PropDef> {
             "NEON is checked through a source transformation of the current neon.rs compiled against a scalar emulation of the aarch64 intrinsics (vlib/src/neon_emu.rs, transcribed from the Arm reference), not on hardware",
             "word size 8 (x86-64) only for the SWAR backend",
             "SSE4.2 / AVX2 backends are run only if the host CPU has them (it does: see notes)",
-        ], rule: "for each backend x class (SWAR x3, SSE4.2 x2, AVX2 x2, emulated NEON x3, dispatching entry x3 under each forced cell value): every length 0..=100 x every position x all 256 byte values (other bytes in class, 2-3 fillers) with the buffer ending at a guard page; all-in-class buffers of every length 0..=200 at 66 placements; one offending byte x 32 interior alignments; every pair of offending positions with 3 start cursors; SWAR block functions over a boundary alphabet^8 (must never step over an out-of-class byte); the class predicates on all 256 bytes. Oracle: cursor after the call == start + position of the first byte outside the class as written in the statement. Non-trivial = an offending byte at p>=1 or length >= 8; distinct by hash of (backend,class,cell,start,placement,bytes). exhaustive over the stated grid" },
+        ], rule: "for each backend x class (SWAR x3, SSE4.2 x2, AVX2 x2, emulated NEON x3, dispatching entry x3 under each forced cell value): every length 0..=100 x every position x all 256 byte values (other bytes in class, 2-3 fillers) with the buffer ending at a guard page; lengths 101..=300 x every position x 40 boundary values x 2 fillers (in-class fillers include HTAB and bytes >= 0x80, so lane-wise reductions over several vectors are exercised); all-in-class buffers of every length 0..=400 at 66 placements; one offending byte x 32 interior alignments; every pair of offending positions with 3 start cursors; SWAR block functions over a boundary alphabet^8 (must never step over an out-of-class byte); the class predicates on all 256 bytes. Oracle: cursor after the call == start + position of the first byte outside the class as written in the statement. Non-trivial = an offending byte at p>=1 or length >= 8; distinct by hash of (backend,class,cell,start,placement,bytes). exhaustive over the stated grid" },
         PropDef { id: "C13", run: p_variants::run, check: p_variants::check, max_buf: 80_000, assumptions: &[
             "thread timing is stressed (barrier-released first parses with the cached feature cell reset, in-process thousands of times and in fresh processes), not enumerated: the harness does not own the scheduler; what is enumerated instead is every value the cell can hold (hook H2), which bounds what any interleaving can make a reader observe",
             "x86-64 variants only; the host CPU has AVX2 and SSE4.2 so all compile-time variants can be executed",
